@@ -1,0 +1,13 @@
+//go:build verif
+
+// Copyright 2025 NVIDIA CORPORATION
+// SPDX-License-Identifier: Apache-2.0
+
+package controllers
+
+import "sigs.k8s.io/controller-runtime/pkg/handler"
+
+// EventHandlersForSim exposes the pod controller's real event handlers (simulation harness only).
+func (r *PodReconciler) EventHandlersForSim() handler.Funcs {
+	return r.eventHandlers()
+}
